@@ -470,7 +470,11 @@ def generate_input(
         json_dict = {"comments": "",
                      "ranges": ranges_dict}
 
-        filename = os.path.join(input_dir, f'{label}.json')
+        # One file per bias ratio, otherwise each would overwrite the last.
+        if len(bias_ratios) == 1:
+            filename = os.path.join(input_dir, f'{label}.json')
+        else:
+            filename = os.path.join(input_dir, f'{label}_bias_{eta}.json')
 
         with open(filename, 'w') as json_file:
             json.dump(json_dict, json_file, indent=4)
